@@ -13,6 +13,9 @@ import (
 	"fmt"
 	"net"
 	"net/http"
+	"net/http/httputil"
+	"net/url"
+	"os"
 	"sort"
 	"strings"
 	"sync"
@@ -88,6 +91,11 @@ func startHelios(cfg *config.Config) (*helios, error) {
 		h = ch
 	}
 	h = logging.RequestContextMiddleware(cfg.Logging)(h)
+	if os.Getenv("PROXYSIM_CONTROL") == "1" {
+		// control experiment: a bare stdlib reverse proxy instead of Helios
+		u, _ := url.Parse(cfg.Backends[0].Address)
+		h = httputil.NewSingleHostReverseProxy(u)
+	}
 	rt := time.Duration(cfg.Server.Timeouts.Read) * time.Second
 	if rt == 0 {
 		rt = 15 * time.Second
